@@ -1117,6 +1117,7 @@ func replay(path string) {
 		fmt.Println("input written to", out)
 	}
 	_ = hex.EncodeToString
+	os.RemoveAll(dir) // os.Exit below: deferred calls do not run
 	if _, ok := agg.best[doc.Key]; ok {
 		fmt.Println("REPRODUCED", doc.Key)
 		os.Exit(1)
